@@ -42,11 +42,12 @@ VARIABLES
     httpLast, \* <<subscription incarnation, message>> -> status the push endpoint answered last (-1: none)
     delT,     \* subscription incarnation -> instant its deletion completed
     obsDel,   \* subscription incarnation -> index of the first response that observed it as deleted
+    wire,     \* message id as clients see it (a string) -> the message it was issued for (t.accept)
     lightNb,  \* light histories: subscription incarnation -> last reported backlog size (-1: deleted)
     lightNl,  \* light histories: subscription incarnation -> last reported number of outstanding deliveries
     stats     \* [events |-> validated events, hist |-> histories accepted so far, viol |-> ...]
 
-tvars == <<coreVars, l, skip, hdr, pend, tok, content, ptime, gone, httpLast, delT, obsDel, lightNb, lightNl, stats>>
+tvars == <<coreVars, l, skip, hdr, pend, tok, content, ptime, gone, httpLast, delT, obsDel, wire, lightNb, lightNl, stats>>
 
 JudgeLate == "clock" \notin DOMAIN hdr.meta \/ hdr.meta.clock = "paused"
 \* Light histories (very large backlogs): the actors report sizes only and the model abstains
@@ -479,6 +480,20 @@ StreamAlive(c) ==
     /\ p.op = "StreamOpen" /\ p.sub \in DOMAIN smap /\ S[smap[p.sub]].st = "live"
     /\ smap[p.sub] \in SubLookups(Win(c), p.sub)
 
+\* The message ids in client-side events are bound to the server's by OBSERVATION: the topic reports
+\* every id it issues together with its spelling on the wire (t.accept: ids / wire); a client-side
+\* event names messages by that spelling (raw) and is translated through the map built from those
+\* reports.  A spelling nobody issued denotes no message (<<-1, -1>>).
+MsgOfWire(raw) == IF raw \in DOMAIN wire THEN wire[raw] ELSE <<-1, -1>>
+NormMsgs(msgs) == [i \in 1..Len(msgs) |-> IF "raw" \in DOMAIN msgs[i] THEN [msgs[i] EXCEPT !.m = MsgOfWire(msgs[i].raw)] ELSE msgs[i]]
+Norm(e) ==
+    IF e.k = "ret" /\ "raw" \in DOMAIN e.body /\ "ids" \in DOMAIN e.body
+    THEN [e EXCEPT !.body.ids = [i \in 1..Len(e.body.raw) |-> MsgOfWire(e.body.raw[i])]]
+    ELSE IF e.k = "ret" /\ "msgs" \in DOMAIN e.body THEN [e EXCEPT !.body.msgs = NormMsgs(@)]
+    ELSE IF e.k = "srecv" THEN [e EXCEPT !.msgs = NormMsgs(@)]
+    ELSE IF e.k \in {"http", "httpans"} /\ "raw" \in DOMAIN e THEN [e EXCEPT !.m = MsgOfWire(e.raw)]
+    ELSE e
+
 PubN(p) == IF "n" \in DOMAIN p THEN p.n ELSE Len(p.msgs)
 
 QuietTag(isPull, abandoned) ==
@@ -512,6 +527,11 @@ EvGuards(e) ==
             \* one accepting turn of the topic = one whole Publish request (in flight, or abandoned by
             \* its caller): a turn that accepts only a part of a request makes the request's fate
             \* depend on when its caller goes away (C16) and lets other requests in between (C08)
+            (IF "wire" \in DOMAIN e
+             THEN \* no two distinct published messages ever share an id - as clients see the ids
+                  { G("C09", Len(e.wire) = Len(e.ids) /\ NoDup(e.wire)),
+                    G("C09", \A i \in 1..Len(e.wire) : e.wire[i] \notin DOMAIN wire) }
+             ELSE {}) \cup
             { G(IF \E g \in gone : g.op = "Publish" THEN "C08,C16" ELSE "C08",
                 \/ \E c \in DOMAIN pend : pend[c].e.op = "Publish" /\ PubN(pend[c].e) = Len(e.ids)
                 \/ \E g \in gone : g.op = "Publish" /\ PubN(g) = Len(e.ids)) }
@@ -663,9 +683,14 @@ EvGuards(e) ==
 AbandonedNear(si) ==
     \E g \in gone : \/ (g.op \in {"Pull", "StreamOpen", "Ack", "ModAck"} /\ g.sub = S[si].name)
                      \/ g.op = "Publish"
+\* C11: "after DeleteTopic the topic's subscriptions keep serving the messages they already hold": a
+\* loss in a turn of a subscription whose topic was deleted counts for C11 as well.
+Orphaned(si) == S[si].topic \in DOMAIN T /\ T[S[si].topic].deleted
 Retag16(e, gs) ==
-    IF e.k \in {"s.post", "s.pull", "s.ack", "s.mod", "s.expire"} /\ SiKnown(e) /\ AbandonedNear(e.si)
-    THEN {IF g[1] \in {"C01", "C04", "C01,C04,C05"} THEN <<g[1] \o ",C16", g[2]>> ELSE g : g \in gs}
+    IF e.k \in {"s.post", "s.pull", "s.ack", "s.mod", "s.expire"} /\ SiKnown(e)
+    THEN LET extra == (IF AbandonedNear(e.si) THEN ",C16" ELSE "") \o (IF Orphaned(e.si) THEN ",C11" ELSE "")
+         IN IF extra = "" THEN gs
+            ELSE {IF g[1] \in {"C01", "C04", "C01,C04", "C01,C04,C05"} THEN <<g[1] \o extra, g[2]>> ELSE g : g \in gs}
     ELSE gs
 
 LightNb(si) == IF si \in DOMAIN lightNb THEN lightNb[si] ELSE 0
@@ -699,7 +724,7 @@ LightGuards(e) ==
 
 LightApply(e) ==
     /\ now' = e.t
-    /\ UNCHANGED <<tmap, smap, T, S, torder, sorder, reg, pubs, tok, content, ptime, gone, httpLast, delT, obsDel>>
+    /\ UNCHANGED <<tmap, smap, T, S, torder, sorder, reg, pubs, tok, content, ptime, gone, httpLast, delT, obsDel, wire>>
     /\ lightNb' = IF e.k \in {"s.post", "s.pull", "s.ack", "s.mod", "s.expire", "s.stats"} /\ "nb" \in DOMAIN e.st
                   THEN Put(lightNb, e.si, IF e.st.deleted THEN None ELSE e.st.nb)
                   ELSE IF e.k = "s.del1" THEN Put(lightNb, e.si, None) ELSE lightNb
@@ -780,6 +805,10 @@ EvApply(e) ==
     /\ httpLast' = IF e.k = "http" /\ SubsNamed(e.sub) # {} THEN Put(httpLast, <<NewestNamed(e.sub), e.m>>, e.code)
                    ELSE IF e.k = "httpans" THEN HttpAnswered(e) ELSE httpLast
     /\ delT' = IF e.k = "s.del1" THEN Put(delT, e.si, e.t) ELSE delT
+    /\ wire' = IF e.k = "t.accept" /\ "wire" \in DOMAIN e /\ Len(e.wire) = Len(e.ids)
+               THEN [w \in (DOMAIN wire) \cup SeqSet(e.wire) |->
+                        IF w \in DOMAIN wire THEN wire[w] ELSE e.ids[IndexIn(e.wire, w)]]
+               ELSE wire
     /\ obsDel' =
          IF e.k = "ret" /\ e.code = "NOT_FOUND" /\ pend[e.c].e.op \in {"GetSub", "Pull", "Ack", "ModAck", "DeleteSub"}
          THEN LET nm == IF pend[e.c].e.op \in {"GetSub", "DeleteSub"} THEN pend[e.c].e.name ELSE pend[e.c].e.sub
@@ -798,7 +827,7 @@ TraceInit ==
     /\ l = 1 /\ skip = FALSE
     /\ hdr = [run |-> "none", meta |-> Empty, cap |-> 16, seed |-> 0]
     /\ pend = Empty /\ tok = Empty /\ content = Empty /\ ptime = Empty /\ gone = {}
-    /\ httpLast = Empty /\ delT = Empty /\ obsDel = Empty /\ lightNb = Empty /\ lightNl = Empty
+    /\ httpLast = Empty /\ delT = Empty /\ obsDel = Empty /\ wire = Empty /\ lightNb = Empty /\ lightNl = Empty
     /\ stats = [ok |-> 0, bad |-> 0, drift |-> 0]
 
 DoReset(e) ==
@@ -808,16 +837,16 @@ DoReset(e) ==
     /\ skip' = FALSE
     /\ hdr' = e
     /\ pend' = Empty /\ tok' = Empty /\ content' = Empty /\ ptime' = Empty /\ gone' = {}
-    /\ httpLast' = Empty /\ delT' = Empty /\ obsDel' = Empty /\ lightNb' = Empty /\ lightNl' = Empty
+    /\ httpLast' = Empty /\ delT' = Empty /\ obsDel' = Empty /\ wire' = Empty /\ lightNb' = Empty /\ lightNl' = Empty
 
 TraceNext ==
     /\ l <= Len(Rec)
     /\ l' = l + 1
-    /\ LET e == Rec[l] IN
+    /\ LET e == IF Light THEN Rec[l] ELSE Norm(Rec[l]) IN
        IF e.k = "reset"
        THEN DoReset(e) /\ UNCHANGED stats
        ELSE IF skip
-       THEN UNCHANGED <<coreVars, skip, hdr, pend, tok, content, ptime, gone, httpLast, delT, obsDel, lightNb, lightNl, stats>>
+       THEN UNCHANGED <<coreVars, skip, hdr, pend, tok, content, ptime, gone, httpLast, delT, obsDel, wire, lightNb, lightNl, stats>>
        ELSE LET gs == IF Light THEN LightGuards(e) ELSE Retag16(e, LateGuards(e) \cup EvGuards(e))
                 bad == Fatal(gs)
             IN IF bad = {}
@@ -831,7 +860,7 @@ TraceNext ==
                ELSE /\ PrintT(<<"VIOL", ToJson([run |-> hdr.run, i |-> e.i, k |-> e.k, line |-> l, props |-> bad])>>)
                     /\ skip' = TRUE
                     /\ stats' = [stats EXCEPT !.bad = @ + 1]
-                    /\ UNCHANGED <<coreVars, hdr, pend, tok, content, ptime, gone, httpLast, delT, obsDel, lightNb, lightNl>>
+                    /\ UNCHANGED <<coreVars, hdr, pend, tok, content, ptime, gone, httpLast, delT, obsDel, wire, lightNb, lightNl>>
 
 TraceSpec == TraceInit /\ [][TraceNext]_tvars
 
